@@ -20,31 +20,31 @@ import (
 // x*-1, x/-1 are exact for floats; everything listed for integers holds modulo 2^n.
 var identityTable = map[string][]string{
 	// boolean comparisons with a constant: x == true and x != false are x (exact: no evaluation is skipped)
-	"EQL/R/true/same":   {"Bool"},
-	"EQL/L/true/same":   {"Bool"},
-	"NEQ/R/false/same":  {"Bool"},
-	"NEQ/L/false/same":  {"Bool"},
-	"ADD/R/0/same":      {"Int", "Uint"},
-	"ADD/L/0/same":      {"Int", "Uint"},
-	"ADD/R/\"\"/same":   {"String"},
-	"ADD/L/\"\"/same":   {"String"},
-	"SUB/R/0/same":      {"Int", "Uint", "Float", "Complex"},
-	"MUL/R/1/same":      {"Int", "Uint", "Float"},
-	"MUL/L/1/same":      {"Int", "Uint", "Float"},
-	"MUL/R/0/zero":      {"Int", "Uint"},
-	"MUL/L/0/zero":      {"Int", "Uint"},
-	"MUL/R/-1/neg":      {"Int", "Uint", "Float"},
-	"MUL/L/-1/neg":      {"Int", "Uint", "Float"},
-	"QUO/R/1/same":      {"Int", "Uint", "Float"},
+	"EQL/R/true/same":  {"Bool"},
+	"EQL/L/true/same":  {"Bool"},
+	"NEQ/R/false/same": {"Bool"},
+	"NEQ/L/false/same": {"Bool"},
+	"ADD/R/0/same":     {"Int", "Uint"},
+	"ADD/L/0/same":     {"Int", "Uint"},
+	"ADD/R/\"\"/same":  {"String"},
+	"ADD/L/\"\"/same":  {"String"},
+	"SUB/R/0/same":     {"Int", "Uint", "Float", "Complex"},
+	"MUL/R/1/same":     {"Int", "Uint", "Float"},
+	"MUL/L/1/same":     {"Int", "Uint", "Float"},
+	"MUL/R/0/zero":     {"Int", "Uint"},
+	"MUL/L/0/zero":     {"Int", "Uint"},
+	"MUL/R/-1/neg":     {"Int", "Uint", "Float"},
+	"MUL/L/-1/neg":     {"Int", "Uint", "Float"},
+	"QUO/R/1/same":     {"Int", "Uint", "Float"},
 	// isLiteralNumber(c, -1) holds for an unsigned constant equal to 2^64-1 (all bits set): that is -1 modulo 2^64
 	// for +, -, *, &, |, ^, &^ — but division and remainder are not modular: x / (2^64-1) is 0 or 1, not -x
 	"QUO/R/-1/neg":          {"Int", "Float"},
 	"QUO/R/-1/delegate:MUL": {"Int", "Float"},
 	// Go rejects x / 0 and x % 0 for integer x only: a float or complex variable divided by a constant zero is Inf or NaN
-	"QUO/R/0/error":         {"Int", "Uint"},
-	"REM/R/0/error":         {"Int", "Uint"},
-	"REM/R/1/zero":          {"Int", "Uint"},
-	"REM/R/-1/zero":         {"Int"},
+	"QUO/R/0/error":     {"Int", "Uint"},
+	"REM/R/0/error":     {"Int", "Uint"},
+	"REM/R/1/zero":      {"Int", "Uint"},
+	"REM/R/-1/zero":     {"Int"},
 	"AND/R/0/zero":      {"Int", "Uint"},
 	"AND/L/0/zero":      {"Int", "Uint"},
 	"AND/R/-1/same":     {"Int", "Uint"},
@@ -530,9 +530,10 @@ func categoryGuards(info *types.Info, guards []ast.Expr) (excluded, only map[str
 // the right one only if the left does not decide. Decided by enumerating the sixteen combinations of (x constant?,
 // its value, y constant?, its value) through the if-structure of Land and Lor (the flags come from the three results
 // of Expr.TryAsPred: value, closure — nil for a constant —, error) and comparing what is returned with the table:
-//   x constant:               x && y = y if x else false        x || y = true if x else y      (y never evaluated early)
-//   x not constant, y constant: x && true = x, x && false must still evaluate x; x || false = x, x || true must still evaluate x
-//   neither constant:         a closure computing x(env) op y(env) with Go's own short-circuit operator.
+//
+//	x constant:               x && y = y if x else false        x || y = true if x else y      (y never evaluated early)
+//	x not constant, y constant: x && true = x, x && false must still evaluate x; x || false = x, x || true must still evaluate x
+//	neither constant:         a closure computing x(env) op y(env) with Go's own short-circuit operator.
 func ruleBoolShortcuts(c *Ctx, rule string) {
 	pk := c.P.Pkg("fast")
 	info := pk.TypesInfo
